@@ -393,6 +393,23 @@ Section NoSilentProofs.
       apply error_report_displayed; try done. by apply not_included_only.
     Qed.
 
+    (* the obligation of props/C02.v: the classes whose report is DERIVED from
+       the file system ([class_producer c = ByIncludes]: nothing about the
+       report — that it exists, its level, its code, its location — is in the
+       hypothesis).  For the other six classes [failure_event] contains
+       [r_level r = Error] and membership in [others] / [d_err], so
+       [failure_classes_reported] is for them [error_report_displayed] (the
+       runner's filter law) and is not stated as an obligation. *)
+    Theorem derived_classes_reported others defs o order c r :
+      class_producer c = ByIncludes ->
+      wf_project (front_project s others defs) ->
+      analysis_order (front_project s others defs) order ->
+      failure_event argv libs s others defs c r ->
+      ~ In (r_id r) (o_allow o) ->
+      In r (res_shown (run_keys (front_project s others defs) o order)) /\ r_level r = Error /\
+      res_exit (run_keys (front_project s others defs) o order) = 1%Z.
+    Proof. intros _. apply failure_classes_reported. Qed.
+
     (* the events of the Includes mirror are not hypothetical: whenever the
        file system has the defect, the report exists *)
     Theorem front_failures_have_reports others defs :
@@ -451,4 +468,39 @@ Section NoSilentProofs.
         + intros e Herr He Hloc. apply (Hno LiftFailure e). simpl. split; [done|]. split; [done|]. by exists d.
     Qed.
   End Run.
+
+  (* [class_shape] is the form in which [failure_event] states the report of a
+     class (the table lib/props/C02.py reads through the extracted driver) *)
+  Lemma failure_event_shape argv libs s others defs c r :
+    failure_event argv libs s others defs c r ->
+    match class_shape c with
+    | ShOsError => exists q, r = report_of (FileOsError q)
+    | ShParseError => exists i, r = report_of (ParsingError i)
+    | ShIncludeError => exists p i a b, r = report_of (IncludeError p (Some i) a b)
+    | ShLiftError =>
+        r_level r = Error /\ exists d, In d defs /\ file_is_named argv s (d_file d) /\ d_err d = Some r
+    | ShOtherUnlabelled => r_level r = Error /\ In r others /\ r_pfiles r = []
+    | ShOtherInNamedFile =>
+        r_level r = Error /\ In r others /\ exists z, In z (r_pfiles r) /\ file_is_named argv s z
+    end.
+  Proof.
+    destruct c; simpl.
+    - intros (p & q & _ & _ & ->). by exists q.
+    - intros (f & _ & _ & ->). by exists f.
+    - intros (f & i & u & _ & _ & _ & ->). by exists i.
+    - intros (f & incs & p & a & b & i & u & _ & _ & _ & _ & _ & ->). by exists p, i, a, b.
+    - intros (He & _ & d & Hd & Hf & Herr). split; [done|]. by exists d.
+    - intros (He & _ & d & Hd & Hf & Herr). split; [done|]. by exists d.
+    - done.
+    - done.
+    - done.
+    - done.
+  Qed.
 End NoSilentProofs.
+
+Lemma all_classes_complete : forall c, In c all_classes.
+Proof. intros []; simpl; tauto. Qed.
+
+Lemma derived_classes_are : forall c,
+  class_producer c = ByIncludes <-> c = MissingFile \/ c = UnreadableFile \/ c = SyntaxError \/ c = UnresolvedInclude.
+Proof. intros []; simpl; split; intros H; try tauto; try discriminate; repeat (destruct H as [H|H]; try discriminate). Qed.
